@@ -62,6 +62,26 @@ STR_SRCS = ['x = "hello"', 'x = ""', 'x = r#"he said "hi""#', 'x = "ünï"', 'x 
 NESTED_SRCS = ["5", '"5"', "true", "'c'", "1.5", "b'a'", "-3", '"-3"', "x", "x = 5", "300", '"abc"']
 
 
+def f32_midpoints(rng, n):
+    """Decimal strings a hair above / below the midpoint of two adjacent f32 values: parsing them as f64 and narrowing
+    rounds twice and lands on the wrong neighbour, so they separate `str::parse::<f32>` from any detour through f64."""
+    import struct
+    from fractions import Fraction
+    from decimal import Decimal, getcontext
+    getcontext().prec = 60
+    out = []
+    for _ in range(n):
+        bits = rng.choice([0x3f800000, 0x3f800001, 0x7f7fffff - 1, 0x00800000, rng.randrange(0x00800000, 0x7f000000)])
+        x = Fraction(struct.unpack(">f", struct.pack(">I", bits))[0])
+        y = Fraction(struct.unpack(">f", struct.pack(">I", bits + 1))[0])
+        m = (x + y) / 2
+        for sign in (-1, 1):
+            v = m + sign * m / (1 << 58)
+            d = Decimal(v.numerator) / Decimal(v.denominator)
+            out.append(format(d, ".50e") if rng.random() < 0.5 else format(d, "f")[:80])
+    return out
+
+
 def gen_cases(rng, tier):
     cases = []
     add = lambda target, src, entry="meta": cases.append({"target": target, "src": src, "entry": entry})
@@ -100,6 +120,10 @@ def gen_cases(rng, tier):
             s = rng.choice(["", "", "-", "+"]) + mant + exp
             add(ft, "x = %s" % json.dumps(s))
             if not s.startswith("+"):
+                add(ft, "x = " + s)
+        for s in f32_midpoints(rng, 40 if tier == "quick" else 600):
+            add(ft, "x = %s" % json.dumps(s))
+            if "e" not in s or "." in s:
                 add(ft, "x = " + s)
         add(ft, "", "none")
     for t, srcs in (("bool", BOOL_SRCS), ("AtomicBool", BOOL_SRCS), ("char", CHAR_SRCS), ("String", STR_SRCS),
